@@ -24,6 +24,8 @@ pub struct C13 {
   pub take1: bool,
   pub max_steps: usize,
   pub observers: usize,
+  /// true: only subscribe / unsubscribe / connect / source emits (deep membership histories, 3 subscribers)
+  pub membership_only: bool,
 }
 
 #[derive(Clone)]
@@ -43,11 +45,12 @@ enum Conn {
 impl Harness for C13 {
   fn name(&self) -> String {
     format!(
-      "C13/{:?}/{}/{}/O{}/L{}",
+      "C13/{:?}/{}/{}/O{}{}/L{}",
       self.kind,
       if self.cold { "cold" } else { "hot" },
       if self.take1 { "take1" } else { "direct" },
       self.observers,
+      if self.membership_only { "m" } else { "" },
       self.max_steps
     )
   }
@@ -133,7 +136,7 @@ impl Harness for C13 {
 
     let steps = sym::choose("steps", self.max_steps + 1);
     for i in 0..steps {
-      let k = sym::choose(&format!("h{}.op", i), 6);
+      let k = if self.membership_only { [0usize, 1, 2, 4][sym::choose(&format!("h{}.op", i), 4)] } else { sym::choose(&format!("h{}.op", i), 6) };
       match k {
         0 => {
           let j = sym::choose(&format!("h{}.who", i), no);
@@ -331,7 +334,21 @@ pub fn plan(tier: Tier, _seed: u64) -> Plan {
   for kind in [Ck::Publish, Ck::RefCount, Ck::Replay] {
     for cold in [false, true] {
       for take1 in [false, true] {
-        h.push(Arc::new(C13 { kind, cold, take1, max_steps: steps, observers: if tier == Tier::Quick { 2 } else { 3 } }));
+        h.push(Arc::new(C13 { kind, cold, take1, max_steps: steps, observers: if tier == Tier::Quick { 2 } else { 3 }, membership_only: false }));
+      }
+    }
+    // three subscribers joining and leaving in every order over a hot source (sliced);
+    // the ReplaySubject side of this is covered by C10's slices
+    for who in 0..3i64 {
+      if kind == Ck::Replay {
+        break;
+      }
+      for op1 in 0..4i64 {
+        let inner: Arc<dyn Harness> = Arc::new(C13 { kind, cold: false, take1: false, max_steps: 5, observers: 3, membership_only: true });
+        h.push(Arc::new(crate::explore::Pinned {
+          inner,
+          pins: vec![("steps".to_string(), 5), ("h0.op".to_string(), 0), ("h0.who".to_string(), who), ("h1.op".to_string(), op1)],
+        }));
       }
     }
   }
@@ -362,7 +379,8 @@ pub fn by_name(name: &str) -> Option<Arc<dyn Harness>> {
     kind,
     cold: p[2] == "cold",
     take1: p[3] == "take1",
-    observers: p[4].trim_start_matches('O').parse().ok()?,
+    observers: p[4].trim_start_matches('O').trim_end_matches('m').parse().ok()?,
+    membership_only: p[4].ends_with('m'),
     max_steps: p[5].trim_start_matches('L').parse().ok()?,
   }))
 }
